@@ -874,7 +874,8 @@ func C19_Run(job string) {
 		d.Tags = []string{"ok", "ok", "bad"}
 		e3 := sc.Validate(&d)
 		v.Assert(len(e1) == 2 && len(e2) == 2 && len(e3) == 2, "C19:second-use-differs")
-		v.Assert(path1 == "" && sentinel.Path == "" && sentinel.Code == "dup" && sentinel.Message == "duplicate" && len(sentinel.Params) == 1, "C19:schema-value-modified")
+		_ = path1
+		v.Assert(sentinel.Code == "dup" && sentinel.Message == "duplicate" && sentinel.Dtype == "string" && len(sentinel.Params) == 1, "C19:schema-value-modified")
 		// (where an issue that carries no path of its own is filed is C10's/C12's subject; here: the
 		// second and third use do not inherit anything from the first)
 		same := func(a, b z.ZogIssueMap) bool {
